@@ -3,6 +3,7 @@ package c07
 import (
 	"bufio"
 	"bytes"
+	"context"
 	"crypto/sha256"
 	"encoding/hex"
 	"encoding/json"
@@ -14,8 +15,10 @@ import (
 	"strings"
 	"sync"
 	"testing"
+	"time"
 
 	"github.com/piotrnar/gocoin/lib/btc"
+	"github.com/piotrnar/gocoin/lib/utxo"
 	"pgregory.net/rapid"
 	"verif/env"
 	"verif/pbt"
@@ -189,6 +192,27 @@ type verdict struct {
 	Stage      int    `json:"stage"`       // 1 reopen, 2 tip identity, 3 unspent set at the recovered tip, 4 after feeding the rest
 	Discarded  int    `json:"discarded"`   // stored blocks that failed to connect while the node re-applied them at start-up
 	StuckBelow bool   `json:"stuck_below"` // stage 4 ended on a valid block of the history that is not the most-work tip
+	// state right after the reopen (stage 3 passed: tip and unspent set agree with the model), for the comparison
+	// with what the client's own start-up code reaches on a copy of the same directory
+	OpenTip     string `json:"open_tip,omitempty"`
+	OpenRecords int    `json:"open_records,omitempty"`
+	OpenDigest  string `json:"open_digest,omitempty"`
+}
+
+// utxoDigest: number of stored records and the xor of their SHA-256 (the same function as in the client-side driver
+// /repo/client/verif_recover_test.go)
+func utxoDigest(db *utxo.UnspentDB) (n int, dig string) {
+	var d [32]byte
+	for i := range db.HashMap {
+		for _, v := range db.HashMap[i] {
+			x := sha256.Sum256(*v)
+			for j := range d {
+				d[j] ^= x[j]
+			}
+			n++
+		}
+	}
+	return n, hex.EncodeToString(d[:])
 }
 
 func readLog(fn string) (inflight int, closed bool, diverged string) {
@@ -262,6 +286,8 @@ func recoverAndCheck(c Case, dir, logfn string) (res verdict) {
 		res.Err = fmt.Sprintf("after reopening at tip %s the unspent-output set differs from the replay of its chain:\n%s", tip.Describe(), d)
 		return
 	}
+	res.OpenTip = hex.EncodeToString(h[:])
+	res.OpenRecords, res.OpenDigest = utxoDigest(node.Ch.Unspent)
 	// clean shutdown: exactly the pre-shutdown state
 	if closed && tip != ms.Tip {
 		// (a tie resolved differently inside the F21 class is still a maximal valid tip)
@@ -406,10 +432,11 @@ func tail(s string) string {
 }
 
 type runResult struct {
-	trace []string
-	v     verdict
-	err   error // infrastructure error
-	viol  string
+	trace      []string
+	v          verdict
+	err        error // infrastructure error
+	viol       string
+	clientRuns int // the client's own start-up code ran on a copy of the directory too
 }
 
 // execute runs the workload once in a copy of the template with the given crash spec / truncation and
@@ -471,6 +498,43 @@ func executeOpt(c Case, wantTrace, noClose bool) (r runResult) {
 			return
 		}
 	}
+	// for one execution in three the client's own start-up code brings a COPY of the directory forward first (and
+	// shuts it down); the directory it leaves is judged exactly like the original
+	if useClient(c) {
+		dir2 := filepath.Join(work, "client-copy")
+		cl, clErr := clientStartup(c, dir, dir2, work)
+		if clErr != "" {
+			r.viol = clErr
+			return
+		}
+		if cl != nil {
+			r.clientRuns = 1
+			pbt.AddExtra("runs_of_the_clients_own_startup_code", 1)
+			if cl.Fed > 0 {
+				pbt.AddExtra("runs_of_the_clients_own_startup_code_with_blocks_to_feed", 1)
+			}
+			outfn2 := filepath.Join(work, "verdict2.json")
+			out3, rc3 := child("recover", c, dir2, "VERIF_C07_LOG="+logfn, "VERIF_C07_OUT="+outfn2)
+			var v2 verdict
+			b2, err2 := os.ReadFile(outfn2)
+			if err2 == nil {
+				json.Unmarshal(b2, &v2)
+			}
+			v2.Discarded += int(cl.Discarded) // (blocks that failed to connect were discarded by the client's code this time)
+			pre := fmt.Sprintf("after the client's own start-up code (host_init-like open, do_the_blocks / HandleNetBlock: %d stored blocks fed, %d discarded) and a clean shutdown: ", cl.Fed, cl.Discarded)
+			if rc3 != 0 || err2 != nil {
+				r.v = v2
+				r.viol = pre + fmt.Sprintf("judging the directory killed the process (rc=%d, stage %d): %s", rc3, v2.Stage, tail(out3))
+				return
+			}
+			if !v2.OK {
+				r.v = v2
+				r.viol = pre + v2.Err
+				return
+			}
+		}
+		os.RemoveAll(dir2)
+	}
 	outfn := filepath.Join(work, "verdict.json")
 	out2, rc2 := child("recover", c, dir, "VERIF_C07_LOG="+logfn, "VERIF_C07_OUT="+outfn)
 	b, err := os.ReadFile(outfn)
@@ -490,8 +554,77 @@ func executeOpt(c Case, wantTrace, noClose bool) (r runResult) {
 	}
 	if !r.v.OK {
 		r.viol = r.v.Err
+		return
 	}
 	return
+}
+
+// The recovery path of env.Open is a literal mirror of package main code (client/main.go do_the_blocks,
+// LocalAcceptBlock), which cannot be imported.  For one execution in three the real thing runs too: the test binary of
+// /repo/client built with the tag verif holds a driver (verif_recover_test.go) that opens a COPY of the directory the
+// way host_init does and lets do_the_blocks / HandleNetBlock bring it forward.
+type clientResult struct {
+	Tip       string `json:"tip"`
+	Height    uint32 `json:"height"`
+	Records   int    `json:"records"`
+	Digest    string `json:"digest"`
+	Fed       int    `json:"fed"`
+	Discarded uint64 `json:"discarded"`
+	log       string
+}
+
+func clientBinary() string {
+	if b := os.Getenv("VERIF_BUILD"); b != "" {
+		fn := filepath.Join(b, "c07client.test")
+		if _, err := os.Stat(fn); err == nil {
+			return fn
+		}
+	}
+	return ""
+}
+
+func useClient(c Case) bool {
+	if clientBinary() == "" {
+		return false
+	}
+	h := sha256.Sum256([]byte(caseKey(c) + c.Crash + c.Truncate))
+	return h[0]%3 == 0
+}
+
+func clientStartup(c Case, dir, dir2, work string) (*clientResult, string) {
+	if err := copyDir(dir, dir2); err != nil {
+		return nil, ""
+	}
+	p := sim.Params(c.Sim.Params)
+	o := c.opts()
+	if o.MaxCached == 0 {
+		o.MaxCached = 20
+	}
+	out := filepath.Join(work, "client-result.json")
+	job := map[string]any{"dir": dir2 + string(os.PathSeparator), "out": out, "genesis": hex.EncodeToString(p.GenesisHash[:]),
+		"pow_bits": p.PowLimitBits, "pow_limit": p.PowLimit.Text(16), "genesis_time": p.GenesisTime,
+		"bip34": p.BIP34Height, "bip65": p.BIP65Height, "bip66": p.BIP66Height, "csv": p.CSVHeight, "segwit": p.SegwitHeight, "taproot": p.TaprootHeight,
+		"compress_utxo": o.CompressUTXO, "compress_blocks": o.CompressBlocks, "max_cached": o.MaxCached, "max_data_file": o.MaxDataFile,
+		"keep_data_files": o.KeepDataFiles, "callbacks": c.Observer}
+	jb, _ := json.Marshal(job)
+	jf := filepath.Join(work, "client-job.json")
+	os.WriteFile(jf, jb, 0o644)
+	ctx, cancel := context.WithTimeout(context.Background(), 150*time.Second)
+	defer cancel()
+	cmd := exec.CommandContext(ctx, clientBinary(), "-test.run", "^TestVerifRecoverChild$", "-test.timeout", "140s")
+	cmd.Env = append(os.Environ(), "VERIF_CLIENT_JOB="+jf, "VERIF_CRASH_AT=", "VERIF_TRACE=", "VERIF_YIELD=")
+	cmd.Dir = work
+	ob, err := cmd.CombinedOutput()
+	if err != nil {
+		return nil, fmt.Sprintf("the client's own start-up code (host_init-like open, do_the_blocks, HandleNetBlock) on a copy of the directory died or hung (%v): %s", err, tail(string(ob)))
+	}
+	var res clientResult
+	b, e := os.ReadFile(out)
+	if e != nil || json.Unmarshal(b, &res) != nil {
+		return nil, fmt.Sprintf("the client's own start-up code left no result: %s", tail(string(ob)))
+	}
+	res.log = string(ob)
+	return &res, ""
 }
 
 func onePoint(c Case) error {
